@@ -261,8 +261,13 @@ class ConformerGenerator(object):
             )
         elif self.forcefield.startswith("mmff"):
             AllChem.MMFFSanitizeMolecule(mol)
+            # RDKit's variant names are case sensitive ("MMFF94" / "MMFF94s"); any
+            # other string silently selects MMFF94
+            mmff_variant = {"mmff94": "MMFF94", "mmff94s": "MMFF94s"}[
+                self.forcefield
+            ]
             mmff_props = AllChem.MMFFGetMoleculeProperties(
-                mol, mmffVariant=self.forcefield
+                mol, mmffVariant=mmff_variant
             )
             ff = AllChem.MMFFGetMoleculeForceField(
                 mol, mmff_props, confId=conf_id, **kwargs
